@@ -30,9 +30,28 @@ pub fn convert(f: &f::Layout) -> Result<s::Layout, String> {
     adjust_repeats(&mut res, &from_table, &alias_mappings, fm)?;
   }
   
+  for sm in &res {
+    check_no_repeated_keys(sm)?;
+  }
+  
   Ok(s::Layout {
     mappings: res
   })
+}
+
+// The mapper cannot work with a trigger or an output that lists a key twice
+// (which can also come from aliases, e.g. ["@shift", "@shift", "A"]).
+fn check_no_repeated_keys(sm: &s::Mapping) -> Result<(), String> {
+  for (side, keys) in [("from", &sm.from), ("to", &sm.to)].iter() {
+    for i in 0..keys.len() {
+      for j in i+1..keys.len() {
+        if keys[i] == keys[j] {
+          return Err(format!("Mapping from {:?} to {:?} lists key {:?} more than once in `{}`", sm.from, sm.to, keys[i], side));
+        }
+      }
+    }
+  }
+  Ok(())
 }
 
 fn adjust_repeats<'a>(res: &mut Vec<s::Mapping>, from_table: &HashMap<FromSet, Vec<usize>>, alias_mappings: &'a HashMap<String, Vec<&'a f::AliasMapping>>, fm: &f::Mapping) -> Result<(), String> {
